@@ -618,6 +618,14 @@ impl RoutingThread {
 
         let mut previous_block_hash = chain.start;
         let configs = self.config_lock.read().await;
+        if !configs.is_spv_mode() && !configs.is_browser() {
+            // only lite nodes ask for ghost chains; a full node must not let a peer rewrite its chain index
+            warn!(
+                "ghost chain received from peer : {:?} on a full node. ignoring",
+                peer_index
+            );
+            return;
+        }
         let mut blockchain = self.blockchain_lock.write().await;
         let mut lowest_id_to_reorg = 0;
         let mut lowest_hash_to_reorg = [0; 32];
